@@ -458,3 +458,17 @@ def canon(ab):
 
     return digest([ab["mode"], ab["S"], sorted(ab["V"]),
                    sorted([repr(w), h, list(b)] for w, h, b in ab["rules"])])
+
+
+def cap_ambiguity(ab, strs, cap=300):
+    """Poly mode: drop strings with more than `cap` derivation trees (counted
+    with the integer semiring on the raw rules) - the polynomials the library
+    and the reference would have to carry grow with the number of trees, and
+    slowness is not a property."""
+    if ab["mode"] != "poly":
+        return strs
+    rules = [(1, h, tuple(b)) for _, h, b in ab["rules"]]
+    V = set(ab["V"])
+    alg = ref.Alg(0, 1, exact=True)
+    null = ref.ref_null(rules, V, alg)
+    return [x for x in strs if ref.ref_inside(rules, V, ab["S"], tuple(x), alg, null=null) <= cap]
